@@ -40,14 +40,46 @@ func bigFamily(n, d, shape int) [][]arrMsg {
 	return chunks
 }
 
+// sized returns the sliding-window family with chunk sizes growing (dir>0) or shrinking (dir<0)
+// along the file, so that every chunk is larger than all chunks loaded before it in some read order.
+func sizedFamily(n, d, dir int) [][]arrMsg {
+	chunks := make([][]arrMsg, n)
+	for i := 0; i < n; i++ {
+		lo, hi := uint64(10*i), uint64(10*i+10*d-1)
+		k := i + 2
+		if dir < 0 {
+			k = n - i + 1
+		}
+		for j := 0; j < k; j++ {
+			t := lo + uint64(j)*(hi-lo)/uint64(k-1)
+			chunks[i] = append(chunks[i], arrMsg{ch: uint16(1 + j%3), t: t})
+		}
+	}
+	return chunks
+}
+
 func c20BigBody(ns []int, comps []string) explore.Body {
 	return func(x *explore.Ctx) *explore.Verdict {
 		n := ns[x.Choose("layout", len(ns))]
 		d := 1 + x.Choose("layout", 8)
-		shape := x.Choose("layout", 3)
+		shape := x.Choose("layout", 5)
 		comp := comps[x.Choose("cfg", len(comps))]
 		filter := x.Choose("cfg", 3) // none | topic | time window
-		chunks := bigFamily(n, d, shape)
+		var chunks [][]arrMsg
+		switch shape {
+		case 3:
+			if n > 100 {
+				n = 100
+			}
+			chunks = sizedFamily(n, d, +1)
+		case 4:
+			if n > 100 {
+				n = 100
+			}
+			chunks = sizedFamily(n, d, -1)
+		default:
+			chunks = bigFamily(n, d, shape)
+		}
 		a := buildArrangement(chunks, comp)
 		depth := a.overlapDepth(func(int) bool { return true })
 		largest := 0
@@ -58,7 +90,7 @@ func c20BigBody(ns []int, comps []string) explore.Body {
 			}
 		}
 		x.Note = func() any {
-			return map[string]any{"chunks": n, "wanted_depth": d, "shape": []string{"sliding", "nested", "staircase"}[shape], "compression": comp, "filter": filter, "model_overlap_depth": depth}
+			return map[string]any{"chunks": n, "wanted_depth": d, "shape": []string{"sliding", "nested", "staircase", "sliding-growing-chunks", "sliding-shrinking-chunks"}[shape], "compression": comp, "filter": filter, "model_overlap_depth": depth}
 		}
 		ctxs := fmt.Sprintf(" — N=%d d=%d shape=%d comp=%q filter=%d overlap depth %d", n, d, shape, comp, filter, depth)
 		x.Ops += 4 * n
@@ -296,8 +328,8 @@ const streamSlack = 3 << 20 // generous fixed slack: the property is "independen
 func c20AttachBody(sizes []int64) explore.Body {
 	return func(x *explore.Ctx) *explore.Verdict {
 		size := sizes[x.Choose("arg", len(sizes))]
-		mode := x.Choose("cfg", 5)
-		names := []string{"writer: WriteAttachment from a generator into a counting sink", "lexer with a callback draining to io.Discard", "lexer without a callback (non-seekable source)", "non-indexed iterator over a non-seekable source", "lexer with a callback that ignores the data"}
+		mode := x.Choose("cfg", 6)
+		names := []string{"writer: WriteAttachment from a generator into a counting sink", "lexer with a callback draining to io.Discard", "lexer without a callback (non-seekable source)", "non-indexed iterator over a non-seekable source", "lexer with a callback that ignores the data", "unchunked writer with default options: WriteAttachment from a generator into a counting sink"}
 		x.Note = func() any { return map[string]any{"attachment_bytes": size, "mode": names[mode]} }
 		ctxs := fmt.Sprintf(" — %s, attachment of %d bytes", names[mode], size)
 		x.State = explore.Hash([]byte(fmt.Sprint(size, mode)))
@@ -317,9 +349,13 @@ func c20AttachBody(sizes []int64) explore.Body {
 		}
 		alloc0 := totalAlloc()
 		switch mode {
-		case 0:
+		case 0, 5:
 			sink := &countSink{check: check}
-			w, err := mcap.NewWriter(sink, &mcap.WriterOptions{IncludeCRC: true, Chunked: true, ChunkSize: 1024})
+			wo := &mcap.WriterOptions{IncludeCRC: true, Chunked: true, ChunkSize: 1024}
+			if mode == 5 {
+				wo = &mcap.WriterOptions{}
+			}
+			w, err := mcap.NewWriter(sink, wo)
 			if err != nil {
 				return vio("C20:harness", "%v", err)
 			}
@@ -400,7 +436,7 @@ func c20AttachBody(sizes []int64) explore.Body {
 
 // C20: reading and writing need memory for a few chunks, not the file.
 func C20(r *chk.Run) {
-	r.Rule("(a) every arrangement of <=3 chunks x <=3 messages over 4 timestamps: after every NextInto the verif hook reports chunk slots allocated <= max(1, D), D = largest number of chunk time ranges sharing a point (exactly 1 in file order); (b) deterministic families N in {10,100[,1000]} chunks x overlap depth 1..8 x {sliding, nested, staircase} x compression x filter x 3 orders, with slot count, slot capacity, compressed-chunk buffer, lexer chunk buffer and non-indexed iterator buffers bounded by D x largest chunk; (c) attachments of 1 KiB..16 MiB [256 MiB] streamed through writer, lexer (3 callback modes) and non-indexed iterator from generators that never hold the data, live heap sampled inside the callbacks; distinct = distinct (file, mode) cases")
+	r.Rule("(a) every arrangement of <=3 chunks x <=3 messages over 4 timestamps: after every NextInto the verif hook reports chunk slots allocated <= max(1, D), D = largest number of chunk time ranges sharing a point (exactly 1 in file order); (b) deterministic families N in {10,100[,1000]} chunks x overlap depth 1..8 x {sliding, nested, staircase, growing chunk sizes, shrinking chunk sizes} x compression x filter x 3 orders, with slot count, slot capacity, compressed-chunk buffer, lexer chunk buffer and non-indexed iterator buffers bounded by D x largest chunk; (c) attachments of 1 KiB..16 MiB [256 MiB] streamed through writer, lexer (3 callback modes) and non-indexed iterator from generators that never hold the data, live heap sampled inside the callbacks; distinct = distinct (file, mode) cases")
 	r.Assume("memory oracles use generous fixed slack (3 MiB / factor 2) and no time component; the constant factors are engineering bounds, the check decides 'bounded by overlap depth, independent of N and of attachment size'")
 	one := func(x *explore.Ctx) ([][]arrMsg, string) { return genArrangement(x, 1, 3, 3, c03Domain, []uint16{1}), "" }
 	ns := []int{10, 100}
